@@ -652,3 +652,40 @@ def legacy_frame(rng, version=None):
             out += bytes([0x80 | (n >> 16), (n >> 8) & 0xFF, n & 0xFF, b]); content += bytes([b]) * n
     out += bytes([0xC0, 0, 0])
     return bytes(out), bytes(content)
+
+
+def huf4_small_frames(rng, count):
+    """valid frames the bundled compressor never emits: Huffman literals in FOUR streams for tiny regenerated sizes (6 .. 48 bytes; the format
+    allows four streams from 6 literals on, the compressor uses them from 256) - incl. the sizes 6 and 9 whose fourth stream is empty - written by
+    the Lean literals-section writer (`zvdriver litenc`, op huf4: Model/LitEnc + Model/HufEnc), one block with the tree description and, for every
+    second frame, a second block re-using the table ("treeless") -> [(frame bytes, content bytes)]"""
+    import zv
+    alph = [(1, [1, 1]), (2, [1, 1, 1, 1]), (2, [2, 1, 1]), (3, [3, 2, 1, 1]), (3, [1] * 8), (3, [2, 2, 1, 1, 1, 1]), (4, [4, 3, 2, 1, 1]), (2, [0, 2, 0, 1, 1])]
+    sizes = [6, 9, 6, 9, 7, 8, 10, 11, 12, 13, 15, 16, 17, 20, 21, 24, 33, 48]
+    lines, lits = [], []
+    for i in range(count):
+        log, w = alph[i % len(alph)] if i < 2 * len(alph) else rng.choice(alph)
+        n = sizes[(i // 2) % len(sizes)] if i < 4 * len(sizes) else rng.choice(sizes)
+        syms = [k for k, x in enumerate(w) if x]
+        x = bytes(rng.choice(syms) for _ in range(n))
+        lines.append("huf4 %d %s %s" % (log, ",".join(map(str, w)), x.hex())); lits.append(x)
+    rc, out, err = zv.run([zv.driver_exe(), "litenc"], "\n".join(lines) + "\n", timeout=600)
+    if rc != 0:
+        raise RuntimeError("lean driver litenc failed: " + err[-300:])
+    res = []
+    def block(sec, last):
+        body = sec + b"\x00"                 # no sequences
+        return (((len(body) << 3) | (2 << 1) | (1 if last else 0)).to_bytes(3, "little")) + body
+    for i, (o, x) in enumerate(zip(out.split("\n"), lits)):
+        f = dict(t.split("=", 1) for t in o.split() if "=" in t)
+        if f.get("rt") != "ok" or f.get("section", "none") == "none":
+            continue
+        sec = bytes.fromhex(f["section"]); rep = bytes.fromhex(f["treeless"])
+        if i % 2 == 0:
+            content = x; blocks = block(sec, True)
+        else:
+            content = x + x; blocks = block(sec, False) + block(rep, True)
+        # window descriptor 0 (1 KiB), no content size: with a single-segment header the window - and with it the block size limit - would be
+        # the content size, below the size of these (expanding) compressed blocks
+        res.append((b"\x28\xb5\x2f\xfd" + bytes([0x00, 0x00]) + blocks, content))
+    return res
